@@ -4,6 +4,12 @@ import json, sys, os
 
 CHECKS = {
  # id: (category, technique, design_ref, text, note)
+ "C04": ("exploration", "bounded-exhaustive enumeration of literal/name contents at every position kind, compared token-by-token under two independent SQL lexers", "DESIGN.md §4 C04",
+         "32 skeletons (one per position where a string, name or number can occur) x every content over a 19-symbol adversarial alphabet up to length n (and a quote/backslash sub-alphabet to a larger length) x every PQL spelling: the emitted SQL must have the same token kinds and identical non-hole tokens as the skeleton with a neutral content, and the hole tokens must decode (ClickHouse rules; standard rules when no backslash) to the PQL value.",
+         "sqlx lexers implement standard and ClickHouse quoting rules; ClickHouse is the target dialect for decoding"),
+ "C05": ("exploration", "bounded-exhaustive enumeration of accepted programs; output parsed by an independent SQL statement reader", "DESIGN.md §4 C05",
+         "Every successful Compile over all lexeme sequences up to L tokens (three alphabets), all corruptions of the grammar corpus, the corpus in several layouts and expression trees up to N nodes is lexed under both rule sets and parsed as `[WITH ...] select ;`; table references, CTE order, name uniqueness and CTE use are checked.",
+         "sqlx reads a superset of what pql emits; tables named in the source = identifier token values"),
  "C07": ("exploration", "bounded-exhaustive enumeration of grammar derivations x layouts against the generator's prescribed tree", "DESIGN.md §4 C07",
          "Every expression tree over 24 node kinds up to N internal nodes (minimal, full and redundant parentheses), every operator production with every combination of optional parts, all two-operator pipelines over representatives, lets and empty statements, each in uniform, one-gap-at-a-time and (short programs) all separator assignments over 6 separators, is parsed by the real parser and compared field by field with the tree the grammar prescribes.",
          "generator's grammar (DESIGN.md §1) is the documented grammar; printer validated by the reference tokenizer"),
